@@ -1,5 +1,5 @@
 (* C06, part 2 - method dispatch and the endpoint of the data connection, over the protocol model. *)
-From LibFtp Require Import Bytes Decimal Reply Endpoint DataConn Client Client_Proofs.
+From LibFtp Require Import Bytes Decimal Reply Endpoint Ascii DataConn DataConn_Proofs Client Client_Proofs Login_Proofs Transfer_Proofs Transfer_More.
 Local Open Scope N_scope.
 
 (* the method is selected by transfer mode and RFC 2428 setting; passive: parse, then connect, then the transfer
@@ -55,3 +55,20 @@ Print Assumptions C06_port_refused_on_ipv6.
 (* PARTIAL: that the socket the peer reaches at the advertised endpoint is the client's listening socket, and that
    the passive connection arrives at the announced port from the client's address, is observed by the scripted
    peer in all eight combinations passive/active x RFC 2428 on/off x IPv4/IPv6 (oracle_endpoints). *)
+
+(* active modes (EPRT / PORT by the RFC 2428 flag): the client listens, advertises its endpoint with the one prescribed command, sends the transfer command and accepts exactly one connection; the listener is closed with the data socket *)
+Theorem C06_active_listens_and_accepts : forall w path r1 r2 rest x1 x2 x3 line,
+  insync w (r1 :: r2 :: rest) -> w_data w = None ->
+  c_mode (w_cfg w) = Active -> c_tls (w_cfg w) = false ->
+  has_crlf path = false -> adv_cmd w = Some line ->
+  simple_reaction r1 x1 -> is_negative x1 = false ->
+  accepts_transfer r2 x2 x3 -> dp_reachable (r_data r2) = true -> dp_end (r_data r2) = DEof ->
+  exists w', step w (ADownload path None None) = (OReturn (RvReplies [x1; x2; x3]), w') /\
+    insync w' rest /\ w_data w' = None /\ w_cfg w' = w_cfg w /\
+    sink_bytes (io_events (skipn (length (w_trace w)) (w_trace w'))) = delivered (c_type (w_cfg w)) (concat (dp_segs (r_data r2))) /\
+    wire_events (skipn (length (w_trace w)) (w_trace w')) =
+      [WLine line; WReply x1; WLine (RETR_ ++ SP :: path); WReply x2; WReply x3] /\
+    data_events (skipn (length (w_trace w)) (w_trace w')) =
+      [DNewObj; DListen; DAcceptOk; DTcpShutdown; DClose; DAccClose].
+Proof. exact download_active_complete. Qed.
+Print Assumptions C06_active_listens_and_accepts.
